@@ -27,7 +27,7 @@ def required(tier):
     b = {f'prior:{k}': 5 for k in PRIOR}
     b.update({f'bound:{k}': 5 for k in set(work_sig.BOUND_KINDS)})
     b.update({f'flags:{k}': 1 for k in range(16)})
-    b.update({'sequence>=2': 20, 'outside-columns-exist': 50, 'cadence-injection-state': 50, 'derived-sibling-watched': 100})
+    b.update({'sequence>=2': 20, 'outside-columns-exist': 50, 'cadence-injection-state': 50, 'derived-sibling-watched': 100, 'noise-estimate-vs-control-frame': 40})
     return {'buckets': b, 'counters': {'pixels_outside_checked': 10000, 'state_digests': 100}, 'checks': 1000, 'nontrivial': 50}
 
 
@@ -189,6 +189,20 @@ def run_case(c, R):
             c01.call_add_signal(fr2, stg, s['spec'], s['opts'], s['brange'], ref, lo, hi)
         okk = np.abs(fr2.data.astype(np.float64) - fr.data.astype(np.float64)) <= (2 * k + 2) * unit
         R.check(bool(np.all(okk)), 'order-of-injection-matters', nbad=int((~okk).sum()))
+    # noise estimates of a frame built from existing data: they describe the data the frame was BUILT from, whether or not
+    # anybody looked at them before an injection (a control frame of identical content is the witness)
+    if c['prior'] == 'float32' and c['_idx'] % 2 == 1:
+        R.bucket('noise-estimate-vs-control-frame')
+        probe = make_prior(stg, g, c['prior'], c['sub'])            # never inspected before the injection
+        control = make_prior(stg, g, c['prior'], c['sub'])
+        want_stats = (float(control.noise_mean), float(control.noise_std))
+        s0_ = c['sigs'][0]
+        gfs_ = np.array(control.fs, dtype=float)
+        lo_, hi_ = rsig.bounding_columns(gfs_, control.df, control.fchans, s0_['brange'])
+        ref_ = rsig.SignalRef(stg, s0_['spec'], (gfs_[0] + gfs_[-1]) / 2, max(control.df * control.fchans, control.df))
+        c01.call_add_signal(probe, stg, s0_['spec'], s0_['opts'], s0_['brange'], ref_, lo_, hi_)
+        got_stats = (float(probe.noise_mean), float(probe.noise_std))
+        R.check(got_stats == want_stats, 'noise-estimate-depends-on-whether-it-was-read-before-the-injection', got=got_stats, want=want_stats)
     # the same clause for injection through a cadence: every member frame's state other than data is untouched
     if c['_idx'] % 4 == 0 and c['prior'] != 'float32':
         R.bucket('cadence-injection-state')
